@@ -244,7 +244,8 @@ def run_synth(rng):
     return o
 
 
-RENDITIONS = [('1;35', ('idx', 5), None, {'bold'}), ('1;36', ('idx', 6), None, {'bold'}), ('1;34', ('idx', 4), None, {'bold'}),
+RENDITIONS = [('1;31', ('idx', 1), None, {'bold'}), ('0;32', ('idx', 2), None, set()), ('31;49', ('idx', 1), None, set()), ('32', ('idx', 2), None, set()),
+              ('31', ('idx', 1), None, set()), ('1;35', ('idx', 5), None, {'bold'}), ('1;36', ('idx', 6), None, {'bold'}), ('1;34', ('idx', 4), None, {'bold'}),
               ('1;33', ('idx', 3), None, {'bold'}), ('35', ('idx', 5), None, set()), ('2;35', ('idx', 5), None, {'dim'}),
               ('3;34', ('idx', 4), None, {'italic'}), ('38;5;208', ('idx', 208), None, set()),
               ('38;2;10;20;30', ('rgb', (10, 20, 30)), None, set()), ('33;44', ('idx', 3), ('idx', 4), set()),
@@ -262,11 +263,13 @@ def run_moved(rng):
     tabs = rng.choice([8, 4, 2])
     use_map = rng.random() < 0.35
     mapped = {}
+    ordinary = []     # changed lines in git's default colour (or none), neighbours of the specially coloured ones
     for _ in range(nl):
         kind = rng.choice('-+ ')
         text = 'L%d_' % len(body) + gen.rand_text(rng, 40, allow_empty=False, tabs_ok=rng.random() < 0.3)
         if kind != ' ' and rng.random() < 0.6:
             sgr, fg, bg, attrs = rng.choice(RENDITIONS)
+            is_default = (fg, bg, set(attrs)) == ((('idx', 1), None, set()) if kind == '-' else (('idx', 2), None, set()))
             layout = rng.choice(['whole', 'marker-sep'])
             if layout == 'whole':
                 raw = E + '[' + sgr + 'm' + kind + text + E + '[m'
@@ -276,11 +279,18 @@ def run_moved(rng):
             if use_map and sgr in STYLE_NAMES:
                 mfg, mbg = rng.choice([(1, '#102030'), (11, '#203010'), (7, '#301020')])
                 mapped[STYLE_NAMES[sgr]] = (mfg, mbg)
-            expect.append((kind, text, sgr, fg, bg, frozenset(attrs)))
+            if is_default:
+                # the rendition amounts to git's default colour for this kind of line (written differently): not special
+                expect.append(None)
+                ordinary.append((kind, text))
+            else:
+                expect.append((kind, text, sgr, fg, bg, frozenset(attrs)))
         else:
             col = {'-': '[31m', '+': '[32m'}.get(kind)
             body.append((E + col + kind + text + E + '[m') if col and rng.random() < 0.7 else kind + text)
             expect.append(None)
+            if kind in '-+':
+                ordinary.append((kind, text))
     o_, n_ = sum(1 for l, e in zip(body, expect) if True), 0
     nm = sum(1 for e, b in zip(expect, body) if (b.replace(E, '')[:6].find('-') >= 0))
     # counts are irrelevant to delta's rendering; use generous ones
@@ -346,6 +356,27 @@ def run_moved(rng):
                             expected=repr(want), observed=repr([(cl.ch, cl.fg, cl.bg, sorted(cl.attrs)) for cl in (best or [])][:6]),
                             run=res, counters=counters, sets=sets)
         counters['special_lines'] += 1
+    # the neighbours in git's default colours are painted by delta (styles of their kind), not kept raw
+    FAM = {'-': ('minus', 'minus_emph', 'minus_nonemph'), '+': ('plus', 'plus_emph', 'plus_nonemph', 'ws_err')}
+    for kind, text in ordinary:
+        shown = rows.expand_tabs(text, tabs)
+        for rw in rws:
+            t = rw.text()
+            k = t.find(shown)
+            if k < 0:
+                continue
+            pos = 0
+            cells = []
+            for cell in rw.cells:
+                if k <= pos < k + len(shown):
+                    cells.append(cell)
+                pos += len(cell.ch)
+            tags = {gen.TAG_BY_RGB.get(cl.bg) for cl in cells}
+            if not tags <= set(FAM[kind]):
+                return violated('c08:default-coloured-neighbour-not-painted', 'a changed line in git\'s default colour, next to a specially coloured one, is not painted '
+                                'with the styles of its kind', sorted(FAM[kind]), sorted(str(x) for x in tags), run=res, counters=counters, sets=sets)
+            counters['ordinary_neighbours'] = counters.get('ordinary_neighbours', 0) + 1
+            break
     return held(sig=('moved', tuple(e[2] if e else '.' for e in expect), view, bool(mapped)), nontrivial=counters['special_lines'] > 0,
                 counters=counters, sets=sets, sample={'sub': 'moved', 'input': body[:4], 'map_styles': opts.get('--map-styles')})
 
